@@ -268,6 +268,35 @@ def check_small_divisors(failures, counters):
             return
 
 
+async def check_build_default(failures, counters):
+    """(g) a composed formula built WITHOUT saying how missing values count (`(a + b).build(name)`): a missing input
+    makes the sample None - it counts as zero only on request."""
+    from frequenz.quantities import Quantity
+    from frequenz.sdk.timeseries.formula_engine._formula_engine import FormulaBuilder
+
+    def leaf(name):
+        b = FormulaBuilder(name, Quantity)
+        b.push_metric(name, DummyReceiver(), nones_are_zeros=False)
+        return b.build()
+    for op in ("+", "max"):
+        a, b2 = leaf("a"), leaf("b")
+        top = (a + b2) if op == "+" else a.max(b2)
+        try:
+            steps, fetchers = top.build("default")._builder.finalize()  # pylint: disable=protected-access
+        except Exception as e:  # pylint: disable=broad-except
+            failures.append({"clause": "build", "detail": f"(a {op} b).build(name): {type(e).__name__}: {e}"})
+            return
+        names = sorted(fetchers)
+        for mv in MISSING:
+            counters["evaluations"] += 1
+            counters["ho"] += 1
+            got = run_steps(steps, fetchers, {names[0]: mv, names[1]: Fraction(4)})
+            if got is not None:
+                failures.append({"clause": "value", "detail": f"(a {op} b).build(name) without a nones_are_zeros argument, a missing "
+                                                              f"({mv}), b = 4: engine {got}, expected None"})
+                return
+
+
 def check_from_receiver(failures, counters):
     """(d) single-stream engines made with FormulaEngine.from_receiver: the stream's nones_are_zeros setting is the
     one given (a missing sample counts as 0 exactly when it was asked for), a present value passes through."""
@@ -303,11 +332,12 @@ async def check_three_phase(failures, counters):
         return b.build()
 
     for z in (False, True):
-        for op in ("+", "-"):
+        for op in ("+", "-", "max", "min"):
             try:
                 a3 = FormulaEngine3Phase("a", Quantity, tuple(phase_engine(f"a{p}") for p in range(3)))
                 b3 = FormulaEngine3Phase("b", Quantity, tuple(phase_engine(f"b{p}") for p in range(3)))
-                top = (a3 + b3) if op == "+" else (a3 - b3)
+                top = {"+": lambda: a3 + b3, "-": lambda: a3 - b3, "max": lambda: a3.max(b3), "min": lambda: a3.min(b3),
+                       "*": lambda: a3 * 2.0, "/": lambda: a3 / 2.0}[op]()
                 eng3 = top.build("ho3", nones_are_zeros=z)
                 per_phase = [e._builder.finalize() for e in eng3._streams]  # pylint: disable=protected-access
             except Exception as e:  # pylint: disable=broad-except
@@ -322,9 +352,16 @@ async def check_three_phase(failures, counters):
                         counters["ho"] += 1
                         got = run_steps(steps, fetchers, inputs)
                         vals = [Fraction(0) if (n in missing and z) else (UNDEF if n in missing else inputs[n]) for n in names]
-                        want = UNDEF if any(v is UNDEF for v in vals) else (vals[0] + vals[1] if op == "+" else vals[0] - vals[1])
-                        if len(names) != 2:
-                            continue
+                        if op in ("*", "/"):
+                            if len(names) != 1:
+                                continue
+                            want = UNDEF if vals[0] is UNDEF else (vals[0] * 2 if op == "*" else vals[0] / 2)
+                        else:
+                            if len(names) != 2:
+                                continue
+                            want = UNDEF if any(v is UNDEF for v in vals) else {
+                                "+": lambda: vals[0] + vals[1], "-": lambda: vals[0] - vals[1],
+                                "max": lambda: max(vals[0], vals[1]), "min": lambda: min(vals[0], vals[1])}[op]()
                         if not compare(got, want):
                             failures.append({"clause": "value", "detail": f"3-phase a {op} b built with nones_are_zeros={z}, phase {p + 1}, "
                                                                           f"inputs {inputs}: engine {got}, expected {want}"})
@@ -488,6 +525,8 @@ def run(req):
         check_from_receiver(failures, counters)
     if not failures:
         check_small_divisors(failures, counters)
+    if not failures:
+        asyncio.run(check_build_default(failures, counters))
     if not failures:
         asyncio.run(check_three_phase(failures, counters))
     if not failures:
